@@ -1,3 +1,4 @@
+import DryocVerif.Proofs.GenRand
 import DryocVerif.Model.Entropy
 import DryocVerif.Model.EntropyInst
 import DryocVerif.Proofs.EntropyExtra
@@ -14,8 +15,12 @@ about the value returned (that the value is the draw, or an injective image of i
 no reuse" — is `randcomp_is_draw_raw`, `raw_byte`, `fresh_outputs_*`, `calls_fresh`).  Like `run`
 itself it is about the SUCCEEDING call on a stream long enough; see the docstring of
 `Model.Entropy.run` for the three places where the Rust differs (`crypto_box_seal` and
-`crypto_pwhash_str` fail before drawing; the hook's `fill` wraps cyclically where `take`
-truncates). -/
+`crypto_pwhash_str` fail before drawing; `PwHash::hash` draws `salt_length` bytes and THEN validates; the hook's
+`fill` wraps cyclically where `take` truncates).
+PLAINLY: this theorem restates the model — `Kind.consumed` was written next to `run` as the number of bytes each
+branch of `run` takes, and the proof is `cases k <;> simp` over the seven branches.  It checks the two
+definitions against each other (an internal consistency check of the table's kinds), not the Rust; the tie to the
+crate is the differential run (bytes consumed from the hooked source per call). -/
 theorem draws_n (D : Derivers) (k : Kind) (src : Bytes) :
     (run D k src).rest = src.drop k.consumed ∧ (run D k src).draws.sum = k.consumed := by
   cases k <;> simp [run, raw, withDerived, onlyDerived, two, Kind.consumed, List.drop_drop, Nat.add_comm]
@@ -25,7 +30,10 @@ theorem consecutive_disjoint (D : Derivers) (k₁ k₂ : Kind) (src : Bytes) :
     (run D k₂ (run D k₁ src).rest).rest = src.drop (k₁.consumed + k₂.consumed) := by
   rw [(draws_n D k₂ _).1, (draws_n D k₁ _).1, List.drop_drop]
 
-/-- for value-generating entry points the result *is* the draw -/
+/-- for value-generating entry points the result *is* the draw.
+PLAINLY: definitional (`rfl`) — it restates the definition of `raw` (`comp := src.take n`), which is how the table's
+`.raw n` rows were MODELLED; it documents the model and says nothing about the Rust beyond what the differential
+run (output = the hooked bytes) checks. -/
 theorem randcomp_is_draw_raw (n : Nat) (src : Bytes) : (raw n src).comp = src.take n := rfl
 
 /-- key pairs: the secret half of the component is the draw itself, hence two different draws give
@@ -34,6 +42,9 @@ theorem keypair_secret_is_draw (D : Derivers) (src : Bytes) (h : 32 ≤ src.leng
     ((run D .keypair src).comp).take 32 = src.take 32 := by
   simp [run, withDerived, List.take_append, List.length_take, Nat.min_eq_left h]
 
+/-- PLAINLY: this theorem is its own hypothesis — `(raw n s).comp` unfolds to `s.take n`, so the conclusion IS `h`
+(proof term `h`).  It is kept (the name is listed) as the `.raw` case that `fresh_outputs_derived` refers to; the
+statements with content are `fresh_outputs_keypair`, `fresh_outputs_derived`, `fresh_outputs_spec`. -/
 theorem fresh_outputs_raw (n : Nat) (s₁ s₂ : Bytes) (h : s₁.take n ≠ s₂.take n) :
     (raw n s₁).comp ≠ (raw n s₂).comp := h
 
@@ -62,7 +73,9 @@ example : 32 ≤ (1 :: zeros 31 : Bytes).length ∧ (1 :: zeros 31 : Bytes).take
 
 /-! ### freshness for the derived kinds -/
 
-/-- a draw that is not all-zero gives a value that is not all-zero (keys, nonces, salts) -/
+/-- a draw that is not all-zero gives a value that is not all-zero (keys, nonces, salts).
+PLAINLY: this theorem is its own hypothesis (`(raw n src).comp` unfolds to `src.take n`; proof term `h`): it
+restates the table's modelling decision "a `.raw n` entry returns the drawn bytes", nothing more. -/
 theorem nonzero_raw (n : Nat) (src : Bytes) (h : src.take n ≠ zeros n) :
     (raw n src).comp ≠ zeros n := h
 
@@ -300,5 +313,16 @@ example : ∃ D : Derivers, ∀ s₁ s₂ : Bytes,
 
 /-- non-vacuity -/
 example : (raw 2 [1, 2, 3]).comp = [1, 2] ∧ (raw 2 [1, 2, 3]).rest = [3] := by decide
+
+/-- tie to the source, regenerated on every run (translator kernel `Rand`): `crypto_pwhash_str` draws exactly once, AFTER both of its
+parameter guards, the number of bytes the table's `saltText` kind consumes; `PwHash::hash` sizes the salt from `config.salt_length`,
+draws it, and only then calls `crypto_pwhash` (which validates) — so an invalid `Config` costs a draw (the orderings listed in the
+docstring of `Model.Entropy.run`) -/
+theorem translated_pwhash_draw_shape :
+    Gen.Rand.pwhash_str_draws = 1 ∧ Gen.Rand.pwhash_str_draws_after_validate = true
+    ∧ Gen.Rand.pwhash_str_salt_bytes = Model.Entropy.Kind.saltText.consumed
+    ∧ Model.Entropy.table.lookup "pwhash_str" = some .saltText
+    ∧ Gen.Rand.pwhash_obj_draws_salt_length_before_validate = true :=
+  Proofs.GenRand.pwhash_draw_shape
 
 end DryocVerif.Properties.C11
